@@ -313,6 +313,11 @@ pub fn c13_soc5_update_scaling_sparse() {
 pub fn c13_soc5_update_scaling_sparse_p31() {
     soc_update_scaling::<31, 5>(true);
 }
+#[kani::proof]
+#[kani::unwind(7)]
+pub fn c13_soc5_update_scaling_sparse_p7() {
+    soc_update_scaling::<7, 5>(true);
+}
 
 /// Jordan algebra: circ_op is the arrow product, inv_circ_op inverts it; affine_ds = lambda o lambda;
 /// the combined shift is W^-1 ds o W dz - sigma mu e
